@@ -107,7 +107,7 @@ func newC18Vals() *c18Vals {
 		v.ops = append(v.ops, c18Op{Name: fmt.Sprintf("locations(%d)", i), Do: func(s crlstore.CRLStore) error { return s.UpdateCRLLocations(l) }, Ref: func(m *c18Model) { m.locs = l }})
 	}
 	// replace-with: a second store pre-filled by a fixed sequence
-	v.prefill = [][]int{{}, {0, 2, 15}, {1, 9, 14, 16, 17}}
+	v.prefill = [][]int{{}, {0, 2, 15}, {1, 9, 14, 16, 17}, {0, 2, 5}, {3, 12}}
 	for k := range v.prefill {
 		v.ops = append(v.ops, c18Op{Name: fmt.Sprintf("replace-with(prefill%d)", k), Special: fmt.Sprintf("replace:%d", k)})
 	}
